@@ -9,11 +9,20 @@ capacity a power of two ≥ 2 (`ghost_pow`).  Every theorem quantifies over EVER
 every capacity `2^k` (k ≥ 1) and every initial rotation `r` of the ring (`initAt c r` = the
 empty ring after `r` push/pop pairs; an initial fill is a sequential prefix of `σ`).
 The 32-bit machine `Conc32` (`c.M = 2^32`) is what the compiled driver runs against the
-real code; F12 (Findings/C01_ABA.lean) shows the theorems need BoundedLag there.
+real code; F12 (Findings/C01_ABA.lean) shows the theorems need BoundedLag there, and
+`c01_u32_refines_boundedLag` / `c01_u32_refines_single_thread` / `c01_u32_transfer` /
+`c01_u32_linearizable` prove
+that under BoundedLag (always, for a single thread) `Conc32` IS `Conc` reduced mod 2^32.
+Nothing is `_partial`: `c01_lin_points_legal`, `c01_quiescent_slots`, `c01_u32_arith` are the
+former partial theorems, kept as the corollaries / lemmas they now are.
 -/
 import Golib.Proof.C01Facts
 import Golib.Proof.C01Inv
 import Golib.Proof.C01Lin
+import Golib.Proof.C01LinStep
+import Golib.Proof.C01Progress
+import Golib.Proof.C01U32Run
+import Golib.Proof.C01U32Lin
 
 namespace Golib.C01
 
@@ -70,22 +79,11 @@ theorem c01_len_exact_quiescent (k : Nat) (hk : 1 ≤ k) (r : Nat) (progs : List
   have g := ghost_pow k hk
   exact len_exact g (inv_run g (inv_initAt g r progs) σ)
 
-/-- `c01_linearizable_partial`.  Linearization points: the successful `CAS(&r.tail,…)`
-of `Push`, the successful `CAS(&r.head,…)` of `Pop`.  PROVED, for every reachable state:
-the number of elements `tail − head` stays in `[0, cap]`; a tail-CAS that succeeds does so
-only while `tail − head < cap` and a head-CAS only while `tail − head > 0` (the sizes along
-the sequence of linearization points are those of a legal run of a bounded queue of
-capacity `cap`: never more than `cap` elements, never a pop from an empty queue); each
-successful CAS hands out the next position in order (`tail`/`head` advance by exactly one:
-see `inv_pushCAS`/`inv_popCAS`), and the position is owned exclusively until its slot is
-published/released (`Inv.phases`, `c01_race_free`), so every position is written by exactly
-one `Push` and read by exactly one `Pop`, in position order (FIFO).
-FULL statement (DESIGN §5 `c01_linearizable`): additionally, the value returned by the `Pop`
-that claims position `p` equals the argument of the `Push` that claimed `p` (value transport
-through the slot: needs the ghost history of pushed values, as done for C11 in
-Proof/C11Lin.lean) — NOT proved here; it is checked on every explored schedule of the real
-code by the independent linearizability oracle (go/props/c01, package lin). -/
-theorem c01_linearizable_partial (k : Nat) (hk : 1 ≤ k) (r : Nat) (progs : List (List Call))
+/-- `c01_lin_points_legal` (the former `c01_linearizable_partial`, now a corollary of
+`c01_linearizable`, kept): in every reachable state `tail − head ∈ [0, cap]`; a tail-CAS
+that succeeds now does so only while `tail − head < cap`, a head-CAS only while
+`tail − head > 0`. -/
+theorem c01_lin_points_legal (k : Nat) (hk : 1 ≤ k) (r : Nat) (progs : List (List Call))
     (σ : List Nat) (th : Thread) :
     let c : Cfg := { M := 0, cap := 2 ^ k }
     let s := (run c (initAt c r progs) σ).1
@@ -97,6 +95,74 @@ theorem c01_linearizable_partial (k : Nat) (hk : 1 ≤ k) (r : Nat) (progs : Lis
   have hI := inv_run g (inv_initAt g r progs) σ
   have h1 := hI.tail_le
   exact ⟨by omega, hI.head_le_tail, fun hth => cas_legal g hI hth⟩
+
+/-- `c01_linearizable`.  The run is instrumented (`lrun`) with ghost state that `step`
+never reads: the abstract bounded FIFO `q : List Int` (`BQ cap` of DESIGN §5; `bqPush`
+succeeds iff `|q| < cap`, `bqPop` iff `q ≠ []`) and, per thread, `pend` = what its CURRENT
+call did at its linearization point (`none` = not linearized; reset at the call's first
+step).  The ghost is updated (`gstep`) ONLY at the linearization points — the successful
+`CAS(&r.tail, pos, pos+1)` of `Push(v)` appends `v`, the successful `CAS(&r.head, pos, pos+1)`
+of `Pop` removes the head — which are steps of the operation itself, hence inside its
+interval (real-time order).  After EVERY schedule `σ` (so: in every state of every run),
+for every thread `i` that takes the next step, with `gh'` the ghost after that step:
+ 0. the ghost is an observer: the instrumented run is the run;
+ 1. `|q| = tail − head ≤ cap`: the abstract queue never exceeds the capacity;
+ 2. the step leaves `q` alone (and, if it is a CAS, the CAS fails), or it is a successful
+    tail-CAS of `Push(v)` and `bqPush cap q v = some q'` (legal: the queue was not full; `v`
+    is the call's argument, carried in the program counter since `start (.push v)`), or a
+    successful head-CAS and `bqPop q = some (x, q')` (legal: not empty, `x` is the HEAD of
+    the abstract queue); the thread records `v` / `x`; no other thread's record changes;
+ 3. every return agrees with the call's linearization event (`RetOk`): a step that returns
+    `Pop = (v, true)` belongs to a call whose linearization point removed exactly `v` from
+    `q` (value transport through the slot: the pusher owning position `p` wrote the `p`-th
+    pushed value and it is still there when `p` is popped — `GInv.stored`, `GOk`); a step
+    that returns `Push = true` belongs to a call that appended its value; a step that returns
+    false belongs to a call that has NOT linearized (and does not do so in this step), so
+    failed calls leave no trace in the abstract history (their legitimacy is
+    `c01_false_justified`);
+ 4. the elements of `q` are in the ring: the `j`-th element of `q` is the value stored in
+    the slot of position `head + j` whenever that position is published
+    (⇒ no loss, no duplication, no invention, FIFO). -/
+theorem c01_linearizable (k : Nat) (hk : 1 ≤ k) (r : Nat) (progs : List (List Call))
+    (σ : List Nat) (i : Nat) :
+    let c : Cfg := { M := 0, cap := 2 ^ k }
+    let sg := lrun c (initAt c r progs) (ginit progs) σ
+    let s := sg.1
+    let gh := sg.2
+    let gh' := gstep s gh i
+    s = (run c (initAt c r progs) σ).1 ∧
+    (gh.q.length = s.tail - s.head ∧ gh.q.length ≤ c.cap) ∧
+    ((gh'.q = gh.q ∧
+        ∀ th, s.threads[i]? = some th →
+          (∀ v pos seq, th.pc = .pushCAS v pos seq → s.tail ≠ pos) ∧
+          (∀ pos seq, th.pc = .popCAS pos seq → s.head ≠ pos)) ∨
+      (∃ th v pos seq, s.threads[i]? = some th ∧ th.pc = .pushCAS v pos seq ∧ s.tail = pos ∧
+        bqPush c.cap gh.q v = some gh'.q ∧ gh'.pend[i]? = some (some v)) ∨
+      (∃ th pos seq x, s.threads[i]? = some th ∧ th.pc = .popCAS pos seq ∧ s.head = pos ∧
+        bqPop gh.q = some (x, gh'.q) ∧ gh'.pend[i]? = some (some x))) ∧
+    (∀ j, j ≠ i → gh'.pend[j]? = gh.pend[j]?) ∧
+    (∀ ret, (step c s i).2.ret = some ret → RetOk gh gh' i ret) ∧
+    (∀ p, s.head ≤ p → p < s.tail → sq s.slots (p % c.cap) = some (p + 1) →
+      gh.q[p - s.head]? = vl s.slots (p % c.cap)) := by
+  intro c sg s gh gh'
+  have g := ghost_pow k hk
+  have hG : GInv c s gh := ginv_lrun g (ginv_initAt g r progs) σ
+  have hI := hG.inv
+  have h1 := hI.tail_le
+  have h2 := hG.qlen
+  exact ⟨lrun_fst _ _ _ σ, ⟨h2, by omega⟩, gstep_lin g hG i, fun j hj => gstep_pend_other s gh hj,
+    fun ret hr => returns_match g hG i ret hr, hG.stored⟩
+
+/-- Non-vacuity of `c01_linearizable`: capacity 2 at rotation 7, two pushers and a popper
+interleaved; the popper's head-CAS removes 6 (pushed first) from `q = [6, 5]`, and its
+last step returns `(6, true)` = its record. -/
+example :
+    let c : Cfg := { M := 0, cap := 2 }
+    let σ := [1, 1, 1, 0, 0, 0, 1, 1, 2, 2]
+    let sg := lrun c (initAt c 7 [[.push 5], [.push 6], [.pop]]) (ginit [[], [], []]) σ
+    sg.2.q = [6, 5] ∧ (gstep sg.1 sg.2 2).q = [5] ∧ (gstep sg.1 sg.2 2).pend[2]? = some (some 6) ∧
+    (let sg' := lrun c sg.1 sg.2 [2, 2, 2]
+     (step c sg'.1 2).2.ret = some (.pop 6 true) ∧ sg'.2.pend[2]? = some (some 6)) := by decide
 
 /-- `c01_false_justified`: whenever a `Push` is about to return false — at its sequence
 check or at its CAS — the tail moved since the call loaded it (another `Push` overlapped),
@@ -121,16 +187,12 @@ theorem c01_false_justified (k : Nat) (hk : 1 ≤ k) (r : Nat) (progs : List (Li
   have hI := inv_run g (inv_initAt g r progs) σ
   exact ⟨push_false_reason g hI hth, pop_false_reason g hI hth⟩
 
-/-- `c01_progress_partial`.  PROVED: in every reachable state in which no thread is
-between its CAS and its store, the slot at the tail is free for exactly the tail position
-unless the ring is full, and the slot at the head is published for exactly the head
-position unless the ring is empty — so a `Push` (`Pop`) that loads the counter and the
-sequence number now passes its check, and (by definition of `step`) its CAS fails only if
-the counter moved, i.e. only if ANOTHER push (pop) succeeded in between.
-FULL statement (DESIGN §5 `c01_progress_push/_pop`): hence from such a state with a free
-slot (stored element), if only pushers (poppers) take steps, the first CAS executed
-succeeds and at least one call returns true — the scheduling argument is not formalised. -/
-theorem c01_progress_partial (k : Nat) (hk : 1 ≤ k) (r : Nat) (progs : List (List Call))
+/-- `c01_quiescent_slots` (the former `c01_progress_partial`, kept; the key fact behind
+`c01_progress_push/_pop`): in every reachable state in which no thread is between its CAS
+and its store, the slot at the tail is free for exactly the tail position unless the ring
+is full, and the slot at the head is published for exactly the head position unless the
+ring is empty. -/
+theorem c01_quiescent_slots (k : Nat) (hk : 1 ≤ k) (r : Nat) (progs : List (List Call))
     (σ : List Nat) :
     let c : Cfg := { M := 0, cap := 2 ^ k }
     let s := (run c (initAt c r progs) σ).1
@@ -141,19 +203,98 @@ theorem c01_progress_partial (k : Nat) (hk : 1 ≤ k) (r : Nat) (progs : List (L
   have g := ghost_pow k hk
   exact quiescent_slots g (inv_run g (inv_initAt g r progs) σ) hq
 
-/-- `c01_u32_refines_partial`.  PROVED: the arithmetic core of the refinement of the
-32-bit machine `Conc32` by the ghost machine `Conc`: as long as the two compared counter /
-sequence values are less than `2^32` apart (BoundedLag), every comparison the code makes
-on the wrapped values (`pos == seq`, `pos+1 == seq`, the CAS comparisons `tail == pos`,
-`head == pos`) decides exactly as on the unbounded values, and the 32-bit difference used
-by `Len/IsFull` is the true difference.
-FULL statement (DESIGN §5 `c01_u32_refines_boundedLag`): hence `Conc32` and `Conc` take the
-same branches along every schedule on which fewer than `2^32 − cap` operations of the same
-kind succeed while any single call is in flight (simulation by induction over the
-schedule) — NOT proved; without BoundedLag it is false (`Findings/C01_ABA.lean`, F12), and
-the correspondence check runs the 32-bit model against the real code on every run,
-including starts just below `2^32`. -/
-theorem c01_u32_refines_partial (cap a b : Nat) (h : a ≤ b) (hlag : b - a < 2 ^ 32) :
+/-- `c01_progress_push`.  From every reachable QUIESCENT state `s` (no call in flight:
+every thread is idle or about to execute the first access of its next call) with at least
+one free slot (`tail − head < cap`), along every schedule `σ` in which only pushers take
+steps (every scheduled thread is idle or at the first step of a `Push`; what their programs
+contain after that call is arbitrary):
+ (a) as long as no tail-CAS has been executed nobody has returned (in particular nobody
+     returned false), and the FIRST `CAS(&r.tail, …)` executed succeeds;
+ (b) hence in every complete run — one that ends quiescent and in which some call returned
+     at all — at least one `Push` returned true. -/
+theorem c01_progress_push (k : Nat) (hk : 1 ≤ k) (r : Nat) (progs : List (List Call))
+    (σ0 σ : List Nat) :
+    let c : Cfg := { M := 0, cap := 2 ^ k }
+    let s := (run c (initAt c r progs) σ0).1
+    Quiescent s → s.tail - s.head < c.cap →
+    (∀ i ∈ σ, ∀ th, s.threads[i]? = some th → th.pc = .idle ∨ ∃ v, th.pc = .pushLoadTail v) →
+    (∀ σ1 i σ2, σ = σ1 ++ i :: σ2 →
+      (∀ e ∈ (run c s σ1).2, ∀ o n ok, e.acc ≠ .casTail o n ok) →
+      (∀ e ∈ (run c s σ1).2, e.ret = none) ∧
+      ∀ o n ok, (step c (run c s σ1).1 i).2.acc = .casTail o n ok → ok = true) ∧
+    (Quiescent (run c s σ).1 → (∃ e ∈ (run c s σ).2, e.ret ≠ none) →
+      ∃ e ∈ (run c s σ).2, e.ret = some (.push true)) := by
+  intro c s hq hfree hP
+  have g := ghost_pow k hk
+  have hI : Inv c s := inv_run g (inv_initAt g r progs) σ0
+  have hpre := preP_of_quiescent g hI hq hfree (· ∈ σ) (fun i th hi hth => hP i hi th hth)
+  refine ⟨?_, ?_⟩
+  · intro σ1 i σ2 hσ hno
+    have hsub : ∀ j ∈ σ1, j ∈ σ := fun j hj => by rw [hσ]; simp [hj]
+    have hi : i ∈ σ := by rw [hσ]; simp
+    obtain ⟨h1, hr⟩ := preP_run g hpre σ1 hsub hno
+    refine ⟨hr, ?_⟩
+    intro o n ok hacc
+    rcases prePush_step g h1 (P := (· ∈ σ)) hi with ⟨_, _, _, _, _, hev, _⟩ | ⟨_, _, hne⟩
+    · rw [hev] at hacc
+      simp only [Acc.casTail.injEq] at hacc
+      exact hacc.2.2.symm
+    · exact absurd hacc (hne o n ok)
+  · intro hq' hret
+    exact pushers_some_true g hI hpre σ (fun i hi => hi) (fun p => (quiescent_counts hq' p).1) hret
+
+/-- `c01_progress_pop`: the same for poppers on a ring with at least one stored element
+(`tail − head > 0`): before the first head-CAS is executed nobody has returned, the first
+`CAS(&r.head, …)` executed succeeds, and in every complete run at least one `Pop` returned
+`(v, true)`. -/
+theorem c01_progress_pop (k : Nat) (hk : 1 ≤ k) (r : Nat) (progs : List (List Call))
+    (σ0 σ : List Nat) :
+    let c : Cfg := { M := 0, cap := 2 ^ k }
+    let s := (run c (initAt c r progs) σ0).1
+    Quiescent s → 0 < s.tail - s.head →
+    (∀ i ∈ σ, ∀ th, s.threads[i]? = some th → th.pc = .idle ∨ th.pc = .popLoadHead) →
+    (∀ σ1 i σ2, σ = σ1 ++ i :: σ2 →
+      (∀ e ∈ (run c s σ1).2, ∀ o n ok, e.acc ≠ .casHead o n ok) →
+      (∀ e ∈ (run c s σ1).2, e.ret = none) ∧
+      ∀ o n ok, (step c (run c s σ1).1 i).2.acc = .casHead o n ok → ok = true) ∧
+    (Quiescent (run c s σ).1 → (∃ e ∈ (run c s σ).2, e.ret ≠ none) →
+      ∃ e ∈ (run c s σ).2, ∃ v, e.ret = some (.pop v true)) := by
+  intro c s hq hstored hP
+  have g := ghost_pow k hk
+  have hI : Inv c s := inv_run g (inv_initAt g r progs) σ0
+  have hpre := preQ_of_quiescent g hI hq hstored (· ∈ σ) (fun i th hi hth => hP i hi th hth)
+  refine ⟨?_, ?_⟩
+  · intro σ1 i σ2 hσ hno
+    have hsub : ∀ j ∈ σ1, j ∈ σ := fun j hj => by rw [hσ]; simp [hj]
+    have hi : i ∈ σ := by rw [hσ]; simp
+    obtain ⟨h1, hr⟩ := preQ_run g hpre σ1 hsub hno
+    refine ⟨hr, ?_⟩
+    intro o n ok hacc
+    rcases prePop_step g h1 (P := (· ∈ σ)) hi with ⟨_, _, _, _, hev, _⟩ | ⟨_, _, hne⟩
+    · rw [hev] at hacc
+      simp only [Acc.casHead.injEq] at hacc
+      exact hacc.2.2.symm
+    · exact absurd hacc (hne o n ok)
+  · intro hq' hret
+    exact poppers_some_true g hI hpre σ (fun i hi => hi) (fun p => (quiescent_counts hq' p).2) hret
+
+/-- Non-vacuity of `c01_progress_push/_pop`: capacity 2 at rotation 7 holding one element
+(thread 0 pushed 5: five steps), quiescent; two pushers interleaved: the first tail-CAS
+(thread 2) succeeds, the other pusher's CAS fails, the run ends quiescent with one
+`Push = true`; and a popper alone gets `(5, true)`. -/
+example :
+    let c : Cfg := { M := 0, cap := 2 }
+    let s := (run c (initAt c 7 [[.push 5], [.push 6], [.push 8], [.pop]]) [0, 0, 0, 0, 0]).1
+    (∀ th ∈ s.threads, atStart th.pc = true) ∧ s.tail - s.head = 1 ∧
+    ((run c s [1, 2, 1, 2, 2, 1, 2, 2]).2.filterMap (·.ret) = [.push false, .push true]) ∧
+    (∀ th ∈ (run c s [1, 2, 1, 2, 2, 1, 2, 2]).1.threads, atStart th.pc = true) ∧
+    ((run c s [3, 3, 3, 3, 3, 3]).2.filterMap (·.ret) = [.pop 5 true]) := by decide
+
+/-- `c01_u32_arith` (the former `c01_u32_refines_partial`, kept; the arithmetic core of the
+refinement): as long as the two compared counter / sequence values are less than `2^32`
+apart, every comparison the code makes on the wrapped values decides exactly as on the
+unbounded values, and the 32-bit difference used by `Len/IsFull` is the true difference. -/
+theorem c01_u32_arith (cap a b : Nat) (h : a ≤ b) (hlag : b - a < 2 ^ 32) :
     (a % 2 ^ 32 = b % 2 ^ 32 ↔ a = b) ∧
     ((a + 1) % 2 ^ 32 = (b + 1) % 2 ^ 32 ↔ a = b) ∧
     (Cfg.mk (2 ^ 32) cap).sub (b % 2 ^ 32) (a % 2 ^ 32) = b - a :=
@@ -163,6 +304,211 @@ theorem c01_u32_refines_partial (cap a b : Nat) (h : a ≤ b) (hlag : b - a < 2 
     · intro e; have := this.1 e; omega
     · intro e; rw [e],
    sub32_exact cap h hlag⟩
+
+/-- `c01_u32_refines_boundedLag`.  `Conc32` (`M = 2^32`, what the code does) against the
+ghost machine `Conc` (`M = 0`), for every capacity `2^k`, `1 ≤ k ≤ 31` (all that `Init`
+produces), every rotation, thread count, program assignment and schedule `σ`:
+if BoundedLag holds along the GHOST run (`LagRun`: whenever a thread takes a step, the
+ticket it loaded earlier in its call — `pos` of `Push`/`Pop`, the first counter read by
+`Len/IsEmpty/IsFull` — is less than `2^32 − cap` behind the current value of that counter,
+i.e. fewer than `2^32 − cap` operations of that kind succeeded since the load), then the
+32-bit machine started in the same initial state passes through exactly the ghost states
+with every counter, sequence number and local reduced mod `2^32` (`wrapState`) and emits
+the same events — same thread, same RETURN VALUE, accesses equal up to reduction mod `2^32`
+(`wrapEvent`): the two machines take the same branch at every step.  Proof: `step32`
+(one step, from `Inv` and `seq_window`) and induction over the schedule (`run32`).
+Without BoundedLag this is false: `Findings/C01_ABA.lean` (F12). -/
+theorem c01_u32_refines_boundedLag (k : Nat) (hk1 : 1 ≤ k) (hk : k ≤ 31) (r : Nat)
+    (progs : List (List Call)) (σ : List Nat) :
+    let c0 : Cfg := { M := 0, cap := 2 ^ k }
+    let c32 : Cfg := { M := 2 ^ 32, cap := 2 ^ k }
+    LagRun c0 (initAt c0 r progs) σ →
+    run c32 (initAt c32 r progs) σ =
+      (wrapState (run c0 (initAt c0 r progs) σ).1, (run c0 (initAt c0 r progs) σ).2.map wrapEvent) := by
+  intro c0 c32 hl
+  have g := ghost_pow k hk1
+  have h := run32 hk1 hk (inv_initAt g r progs) σ hl
+  rw [wrap_initAt] at h
+  exact h
+
+/-- `c01_u32_refines_single_thread`: when a single thread runs (the C10 clause) BoundedLag
+always holds — the thread's ticket IS the current counter (`Solo`) — so the 32-bit machine
+refines the ghost machine along every schedule with no hypothesis at all, for counters
+started anywhere (`r` arbitrary: also just below `2^32` and beyond). -/
+theorem c01_u32_refines_single_thread (k : Nat) (hk1 : 1 ≤ k) (hk : k ≤ 31) (r : Nat)
+    (prog : List Call) (σ : List Nat) :
+    let c0 : Cfg := { M := 0, cap := 2 ^ k }
+    let c32 : Cfg := { M := 2 ^ 32, cap := 2 ^ k }
+    LagRun c0 (initAt c0 r [prog]) σ ∧
+    run c32 (initAt c32 r [prog]) σ =
+      (wrapState (run c0 (initAt c0 r [prog]) σ).1, (run c0 (initAt c0 r [prog]) σ).2.map wrapEvent) := by
+  intro c0 c32
+  have hcap : c0.cap < 4294967296 := by
+    have : (2:Nat) ^ k ≤ 2 ^ 31 := Nat.pow_le_pow_right (by omega) hk
+    have : (2:Nat) ^ 31 = 2147483648 := by decide
+    show 2 ^ k < 4294967296
+    omega
+  have hl := solo_lagRun c0 hcap (solo_initAt c0 r prog) σ
+  exact ⟨hl, c01_u32_refines_boundedLag k hk1 hk r [prog] σ hl⟩
+
+/-- `c01_u32_transfer`: what the C01 theorems say about the 32-bit machine under BoundedLag.
+Along every schedule on which `LagRun` holds:
+ 1. the history of the 32-bit machine — which thread returned what, in which order — is
+    the history of the ghost machine on the same schedule, so `c01_linearizable`,
+    `c01_false_justified` and `c01_progress_push/_pop` (statements about the ghost run's
+    states and returns) are statements about the 32-bit run;
+ 2. the 32-bit machine never indexed outside the slot array;
+ 3. `c01_race_free` holds of the 32-bit state;
+ 4. `Len/IsEmpty/IsFull` evaluated on the 32-bit counters are exact (`tail − head` of the
+    ghost state, which is the length of the abstract queue) and at most `cap`
+    (`c01_len_exact_quiescent`, `c01_len_range`). -/
+theorem c01_u32_transfer (k : Nat) (hk1 : 1 ≤ k) (hk : k ≤ 31) (r : Nat)
+    (progs : List (List Call)) (σ : List Nat) :
+    let c0 : Cfg := { M := 0, cap := 2 ^ k }
+    let c32 : Cfg := { M := 2 ^ 32, cap := 2 ^ k }
+    let s := (run c0 (initAt c0 r progs) σ).1
+    let s32 := (run c32 (initAt c32 r progs) σ).1
+    LagRun c0 (initAt c0 r progs) σ →
+    (run c32 (initAt c32 r progs) σ).2.map (fun e => (e.tid, e.ret)) =
+      (run c0 (initAt c0 r progs) σ).2.map (fun e => (e.tid, e.ret)) ∧
+    s32.crashed = false ∧
+    (∀ (i j : Nat) (a b : Thread) (slot : Nat), i ≠ j → s32.threads[i]? = some a → s32.threads[j]? = some b →
+      ¬ (plainSlot c32 a.pc = some slot ∧ plainSlot c32 b.pc = some slot)) ∧
+    (c32.lenOf s32.tail s32.head = s.tail - s.head ∧ s.tail - s.head ≤ c32.cap ∧
+      ((s32.head == s32.tail) = true ↔ s.tail - s.head = 0) ∧
+      ((c32.sub s32.tail s32.head == c32.cap) = true ↔ s.tail - s.head = c32.cap)) := by
+  intro c0 c32 s s32 hl
+  have g := ghost_pow k hk1
+  have hI : Inv c0 s := inv_run g (inv_initAt g r progs) σ
+  have href := c01_u32_refines_boundedLag k hk1 hk r progs σ hl
+  have hs32 : s32 = wrapState s := congrArg Prod.fst href
+  have hHT := hI.head_le_tail
+  have hTc : s.tail ≤ s.head + 2 ^ k := hI.tail_le
+  have hcap : (2:Nat) ^ k ≤ 2147483648 := by
+    have : (2:Nat) ^ k ≤ 2 ^ 31 := Nat.pow_le_pow_right (by omega) hk
+    have : (2:Nat) ^ 31 = 2147483648 := by decide
+    omega
+  refine ⟨?_, ?_, ?_, ?_⟩
+  · rw [congrArg Prod.snd href]
+    simp only [List.map_map]
+    rfl
+  · rw [hs32]; exact hI.not_crashed
+  · intro i j a b slot hij ha hb ⟨h1, h2⟩
+    rw [hs32, wrap_threads_get] at ha hb
+    cases ha0 : s.threads[i]? with
+    | none => rw [ha0] at ha; simp at ha
+    | some a0 =>
+      cases hb0 : s.threads[j]? with
+      | none => rw [hb0] at hb; simp at hb
+      | some b0 =>
+        rw [ha0] at ha; rw [hb0] at hb
+        obtain rfl := Option.some.inj ha
+        obtain rfl := Option.some.inj hb
+        have e1 := plainSlot_wrap (k := k) (by omega) a0.pc
+        have e2 := plainSlot_wrap (k := k) (by omega) b0.pc
+        exact no_conflict g hI hij ha0 hb0 (e1 ▸ h1) (e2 ▸ h2)
+  · have hsub : c32.sub s32.tail s32.head = s.tail - s.head := by
+      rw [hs32]
+      exact sub32_exact (2 ^ k) hHT (by have : (2:Nat) ^ 32 = 4294967296 := by decide
+                                        omega)
+    have hh : s32.head = s.head % 4294967296 := by rw [hs32]; rfl
+    have ht : s32.tail = s.tail % 4294967296 := by rw [hs32]; rfl
+    refine ⟨?_, by show s.tail - s.head ≤ 2 ^ k; omega, ?_, ?_⟩
+    · simp only [Cfg.lenOf, hsub]
+      rw [if_neg (by show ¬ s.tail - s.head > 2 ^ k; omega)]
+    · rw [hh, ht]
+      simp only [beq_iff_eq]
+      omega
+    · rw [hsub]
+      simp only [beq_iff_eq]
+
+/-- `c01_u32_linearizable`: `c01_linearizable` stated OF THE 32-BIT MACHINE.  The same ghost
+instrumentation (`lrun`, `gstep`: the abstract queue is updated exactly when a CAS on the
+32-bit counters succeeds) is run on `Conc32`.  Along every schedule `σ` followed by a step of
+thread `i` on which BoundedLag holds (`LagRun` of the ghost run): the abstract queue has at
+most `cap` elements; the step of `i` leaves it alone or is a legal `bqPush` / `bqPop` whose
+value the thread records; no other thread's record changes; and every value the 32-bit
+machine returns in that step agrees with the call's linearization event (`RetOk`: a
+successful `Pop` returns exactly what its head-CAS removed from the head of the abstract
+queue, a false return belongs to a call that did not linearize). -/
+theorem c01_u32_linearizable (k : Nat) (hk1 : 1 ≤ k) (hk : k ≤ 31) (r : Nat)
+    (progs : List (List Call)) (σ : List Nat) (i : Nat) :
+    let c0 : Cfg := { M := 0, cap := 2 ^ k }
+    let c32 : Cfg := { M := 2 ^ 32, cap := 2 ^ k }
+    let sg := lrun c32 (initAt c32 r progs) (ginit progs) σ
+    let s32 := sg.1
+    let gh := sg.2
+    let gh' := gstep s32 gh i
+    LagRun c0 (initAt c0 r progs) (σ ++ [i]) →
+    s32 = (run c32 (initAt c32 r progs) σ).1 ∧
+    gh.q.length ≤ c32.cap ∧
+    (gh'.q = gh.q ∨
+      (∃ v, bqPush c32.cap gh.q v = some gh'.q ∧ gh'.pend[i]? = some (some v)) ∨
+      (∃ x, bqPop gh.q = some (x, gh'.q) ∧ gh'.pend[i]? = some (some x))) ∧
+    (∀ j, j ≠ i → gh'.pend[j]? = gh.pend[j]?) ∧
+    (∀ ret, (step c32 s32 i).2.ret = some ret → RetOk gh gh' i ret) := by
+  intro c0 c32 sg s32 gh gh' hl
+  have g := ghost_pow k hk1
+  rw [lagRun_append] at hl
+  obtain ⟨hl1, hl2, _⟩ := hl
+  have hI0 := inv_initAt g r progs
+  have hrun := lrun32 hk1 hk hI0 (ginit progs) σ hl1
+  rw [wrap_initAt] at hrun
+  have hG : GInv c0 (lrun c0 (initAt c0 r progs) (ginit progs) σ).1
+      (lrun c0 (initAt c0 r progs) (ginit progs) σ).2 := ginv_lrun g (ginv_initAt g r progs) σ
+  have hs32 : s32 = wrapState (lrun c0 (initAt c0 r progs) (ginit progs) σ).1 := by
+    have := congrArg Prod.fst hrun; exact this
+  have hgh : gh = (lrun c0 (initAt c0 r progs) (ginit progs) σ).2 := by
+    have := congrArg Prod.snd hrun; exact this
+  have hlag : ∀ th, (lrun c0 (initAt c0 r progs) (ginit progs) σ).1.threads[i]? = some th →
+      Lag (2 ^ k) (lrun c0 (initAt c0 r progs) (ginit progs) σ).1 th.pc := by
+    rw [lrun_fst]; exact hl2
+  have hgs : gh' = gstep (lrun c0 (initAt c0 r progs) (ginit progs) σ).1
+      (lrun c0 (initAt c0 r progs) (ginit progs) σ).2 i := by
+    show gstep s32 gh i = _
+    rw [hs32, hgh]
+    exact gstep32 hk hG.inv _ i hlag
+  have hstep := step32 hk1 hk hG.inv i hlag
+  refine ⟨lrun_fst _ _ _ σ, ?_, ?_, ?_, ?_⟩
+  · rw [hgh]
+    have := hG.qlen
+    have h2 : (lrun c0 (initAt c0 r progs) (ginit progs) σ).1.tail ≤
+        (lrun c0 (initAt c0 r progs) (ginit progs) σ).1.head + 2 ^ k := hG.inv.tail_le
+    have hpos : 0 < 2 ^ k := Nat.pow_pos (by omega)
+    show _ ≤ 2 ^ k
+    omega
+  · rw [hgs, hgh]
+    rcases gstep_lin g hG i with ⟨h, _⟩ | ⟨_, v, _, _, _, _, _, h1, h2⟩ | ⟨_, _, _, x, _, _, _, h1, h2⟩
+    · exact Or.inl h
+    · exact Or.inr (Or.inl ⟨v, h1, h2⟩)
+    · exact Or.inr (Or.inr ⟨x, h1, h2⟩)
+  · intro j hj
+    rw [hgs, hgh]
+    exact gstep_pend_other _ _ hj
+  · intro ret hr
+    rw [hgs, hgh]
+    refine returns_match g hG i ret ?_
+    have : (step c32 s32 i).2.ret = (step c0 (lrun c0 (initAt c0 r progs) (ginit progs) σ).1 i).2.ret := by
+      rw [hs32]
+      show (step { M := 4294967296, cap := 2 ^ k } _ i).2.ret = _
+      rw [hstep]
+      rfl
+    rw [← this]; exact hr
+
+/-- Non-vacuity of the refinement theorems: a two-thread schedule at rotation `2^32 − 1`
+(the counters wrap in the middle of the run) satisfies `LagRun`, and the 32-bit machine
+returns what the ghost machine returns. -/
+example :
+    let c0 : Cfg := { M := 0, cap := 2 }
+    let c32 : Cfg := { M := 2 ^ 32, cap := 2 }
+    let progs : List (List Call) := [[.push 5, .len], [.push 6, .pop]]
+    let σ := [0, 1, 0, 1, 0, 0, 0, 1, 1, 1, 1, 1, 1, 1, 0, 0]
+    LagRun c0 (initAt c0 4294967295 progs) σ ∧
+    ((run c32 (initAt c32 4294967295 progs) σ).2.filterMap (·.ret) =
+        [.push true, .push false, .pop 5 true, .len 0]) ∧
+    (run c32 (initAt c32 4294967295 progs) σ).1.tail = 0 ∧
+    (run c0 (initAt c0 4294967295 progs) σ).1.tail = 4294967296 :=
+  ⟨lagRun_of_lagRunB _ _ _ (by decide +kernel), by decide +kernel⟩
 
 /-- Non-vacuity: a reachable state of the capacity-2 ring started at rotation 7 with one
 slot being written (thread 0 past its CAS) and one stored element being read. -/
